@@ -25,7 +25,9 @@ ASSUMPTIONS = ['SQLite back-end only', 'offline bitcoinlib_test provider; other 
 SHARDS = {'quick': 16, 'thorough': 16}
 WALL_CAP = {'quick': 900, 'thorough': 3400}
 
-NETS_EXPLICIT = ['bitcoin', 'testnet', 'litecoin', 'dogecoin', 'regtest', 'signet', 'litecoin_testnet']
+# networks on which a Service object can be constructed offline (enough providers configured that the failing
+# block-count request is swallowed); on regtest / signet / litecoin_testnet every request ends in ServiceError
+NETS_EXPLICIT = ['bitcoin', 'testnet', 'litecoin', 'dogecoin', 'litecoin_legacy']
 REFUSALS = ('WalletError', 'TransactionError', 'ValueError')
 
 
@@ -116,6 +118,11 @@ def _run_requests(ctx, case, w):
     consumed = {}      # outpoints spent by transactions this wallet broadcast -> txid
     for rq_i, rq in enumerate(case['requests']):
         wu.reseed(case['rng'] + rq_i + 1)
+        # Wallet.utxos() strips '_sa_instance_state' from the row objects it returns; a row object kept alive by a
+        # reference cycle then breaks the next query that meets it (AttributeError inside SQLAlchemy). Collect
+        # cycles at this fixed point, between requests, so that it cannot happen in the middle of one.
+        import gc
+        gc.collect()
         if rq['op'] == 'utxos_update':
             _do_update(ctx, case, w, model, consumed)
             continue
@@ -207,7 +214,8 @@ def _one_request(ctx, case, w, rq, model, recv, dust, netinfo, consumed=None):
             ctx.refusal('%s.%s' % (op, str(e)[:40]))
         else:
             ctx.refusal('%s.other.%s' % (op, name))
-            ctx.note('other_exception.' + name, repr(e)[:300])
+            import traceback
+            ctx.note('other_exception.' + name, repr(e)[:300] + ' | ' + ' <- '.join('%s:%d' % (f.name, f.lineno) for f in traceback.extract_tb(e.__traceback__)[-6:]))
         return
     ctx.klass('created.' + op)
     for i in t.inputs:
@@ -406,16 +414,16 @@ def _strategy(ctx):
             'leave': st.sampled_from([0, 1, 500, 999, 1000, 1001, 1500, 2500, 6000])}))
 
     def amount_frac():
-        return st.fixed_dictionaries({
-            'of': st.sampled_from(['largest', 'largest', 'confirmed', 'total']),
-            'num': st.sampled_from([1, 1, 1, 1, 2, 3, 9, 50, 99, 100, 101]),
-            'den': st.sampled_from([2, 3, 10, 10, 100, 100]),
-            'plus': st.sampled_from([0, 0, 1, -1, 1000])})
+        frac = st.sampled_from([(1, 100), (1, 10), (1, 10), (1, 3), (1, 2), (1, 2), (2, 3), (9, 10), (99, 100),
+                                (1, 1), (101, 100), (3, 2)])
+        return st.builds(lambda of, f, plus: {'of': of, 'num': f[0], 'den': f[1], 'plus': plus},
+                         st.sampled_from(['largest', 'largest', 'confirmed', 'total']), frac,
+                         st.sampled_from([0, 0, 1, -1, 1000]))
 
     @st.composite
     def cases(draw):
         kind = draw(st.sampled_from(['hd', 'hd', 'single', 'ms']))
-        testnet = draw(st.booleans())
+        testnet = draw(st.sampled_from([True, True, False]))
         if testnet:
             net = 'bitcoinlib_test'
         else:
